@@ -29,6 +29,14 @@ def surfDers1 (rat : Bool) (pu pv : Nat) (Uu Uv : List Rat) (su sv : Nat) (P : L
   let S := surfaceDersA36 pu pv (fn Uu) (fn Uv) sv P (findSpanLinear pu (fn Uu) su u) (findSpanLinear pv (fn Uv) sv v) u v ord
   if rat then ratSurfaceDers S ord else S
 
+/-- sanity guard of the ops with `normalize=True`: the magnitude handed over by the harness (the double
+    `vector_magnitude` returned) is non-negative and a square root of `|v|²` up to the rounding of a double
+    (relative `2⁻⁴⁹` on the square) – in particular `0` exactly for the zero vector; otherwise the op answers `BADMAG` -/
+def magOk (v : List Rat) (m : Rat) : Bool :=
+  let s := Lin.normSq v
+  let e := m * m - s
+  decide (0 ≤ m) && decide ((if e < 0 then -e else e) * (2 : Rat) ^ 49 ≤ s)
+
 def handleDers : List String → Option String
   | ["cders32", rat, p, us, ps, u, ord] => do
       let p ← p.toNat?; let U ← parseList us; let P ← parsePts ps; let u ← parseRat u; let ord ← ord.toNat?
@@ -94,6 +102,51 @@ def handleDers : List String → Option String
       if !(okKv pu su Uu && okKv pv sv Uv && P.length == su * sv) || us.length != vs.length
          || (us.zip vs).any (fun x => !(inDom pu su Uu x.1 && inDom pv sv Uv x.2)) then return "ERR"
       let rs := (us.zip vs).map (fun x => normalSurface (surfDers1 (rat == "1") pu pv Uu Uv su sv P x.1 x.2 1))
+      if rs.any Option.isNone then return "ERR"
+      return "|".intercalate (rs.map (fun r => match r with
+        | some t => s!"{showList t.1};{showList t.2}"
+        | none => "ERR"))
+  -- normalize=True: the magnitudes `vector_magnitude` returned (doubles, exact rationals) are inputs
+  | ["tancn", rat, p, us, ps, params, mags] => do
+      let p ← p.toNat?; let U ← parseList us; let P ← parsePts ps; let params ← parseList params
+      let mags ← parseList mags
+      if !(okKv p P.length U) || params.any (fun u => !(inDom p P.length U u)) || mags.length != params.length then
+        return "ERR"
+      let ds := (params.map (fun u => curveDers1 (rat == "1") p U P u 1)).zip mags
+      if ds.any (fun x => !(magOk (tangentCurve x.1).2 x.2)) then return "BADMAG"
+      let rs := ds.map (fun x => tangentCurveN x.1 x.2)
+      if rs.any Option.isNone then return "ERR"
+      return "|".intercalate (rs.map (fun r => match r with
+        | some t => s!"{showList t.1};{showList t.2}"
+        | none => "ERR"))
+  | ["tansn", rat, pu, pv, uus, uvs, su, sv, ps, us, vs, magsU, magsV] => do
+      let pu ← pu.toNat?; let pv ← pv.toNat?; let Uu ← parseList uus; let Uv ← parseList uvs
+      let su ← su.toNat?; let sv ← sv.toNat?; let P ← parsePts ps; let us ← parseList us; let vs ← parseList vs
+      let magsU ← parseList magsU; let magsV ← parseList magsV
+      if !(okKv pu su Uu && okKv pv sv Uv && P.length == su * sv) || us.length != vs.length
+         || magsU.length != us.length || magsV.length != us.length
+         || (us.zip vs).any (fun x => !(inDom pu su Uu x.1 && inDom pv sv Uv x.2)) then return "ERR"
+      let ds := ((us.zip vs).map (fun x => surfDers1 (rat == "1") pu pv Uu Uv su sv P x.1 x.2 1)).zip (magsU.zip magsV)
+      if ds.any (fun x => !(magOk (tangentSurface x.1).2.1 x.2.1 && magOk (tangentSurface x.1).2.2 x.2.2)) then
+        return "BADMAG"
+      let rs := ds.map (fun x => tangentSurfaceN x.1 x.2.1 x.2.2)
+      if rs.any Option.isNone then return "ERR"
+      return "|".intercalate (rs.map (fun r => match r with
+        | some t => s!"{showList t.1};{showList t.2.1};{showList t.2.2}"
+        | none => "ERR"))
+  | ["nrmsn", rat, pu, pv, uus, uvs, su, sv, ps, us, vs, mags] => do
+      let pu ← pu.toNat?; let pv ← pv.toNat?; let Uu ← parseList uus; let Uv ← parseList uvs
+      let su ← su.toNat?; let sv ← sv.toNat?; let P ← parsePts ps; let us ← parseList us; let vs ← parseList vs
+      let mags ← parseList mags
+      if !(okKv pu su Uu && okKv pv sv Uv && P.length == su * sv) || us.length != vs.length
+         || mags.length != us.length
+         || (us.zip vs).any (fun x => !(inDom pu su Uu x.1 && inDom pv sv Uv x.2)) then return "ERR"
+      let ds := ((us.zip vs).map (fun x => surfDers1 (rat == "1") pu pv Uu Uv su sv P x.1 x.2 1)).zip mags
+      if ds.any (fun x => (normalSurface x.1).isNone) then return "ERR"
+      if ds.any (fun x => match normalSurface x.1 with
+          | some r => !(magOk r.2 x.2)
+          | none => false) then return "BADMAG"
+      let rs := ds.map (fun x => normalSurfaceN x.1 x.2)
       if rs.any Option.isNone then return "ERR"
       return "|".intercalate (rs.map (fun r => match r with
         | some t => s!"{showList t.1};{showList t.2}"
